@@ -336,7 +336,7 @@ class PShuffle(PStochasticPattern):
         self.repeats = repeats
 
         self.pos = 0
-        self.rcount = 1
+        self.rcount = 0
         self.values = copy.copy(self.values_orig)
 
     def __repr__(self):
